@@ -1,6 +1,7 @@
 """C15 - answers are fully dereferenced and stay valid after backtracking."""
 from ..eng import EngineModel
 from .. import rules_state as rs
+from .. import rules_extra as rx
 from .. import rules_db as rd
 from .. import rules_bind as rb
 
@@ -20,3 +21,4 @@ def check(repo, rep, tier):
     fr = rs.Freshness(em)
     rep.run(rs.rule_store_snapshot, em, rep, 'C15.V5s', fr)
     rep.run(rs.rule_copier_derefs, em, rep, 'C15.V5', fr)
+    rep.run(rx.rule_no_dereferenced_value_cached, em, rep, 'C15.V7')
